@@ -730,6 +730,7 @@ class TeX(object):
                 if t.catcode == Token.CC_SPACE:
                     break
                 toks.append(t)
+            ParameterCommand.enable()
             return self.expandTokens(toks, parentNode=parentNode), self.source(toks)
 
         if type in ['cs']:
